@@ -21,6 +21,10 @@ C18.split the scanners' convert_entry / convert_token call the converter's
           process_tail once, after the loop over tokens and symbols, on every
           path to a successful return: the result does not depend on how the
           text is split into tokens.
+C18.symok a function that walks a `Symbols` iterator (which *stops* at a
+          malformed escape sequence) asks it `ok()` on every path to a
+          successful return, or hands out only a borrow of it and asks then:
+          text after a bad escape is never dropped silently.
 C18.sticky  the three incremental Decoders document "it is okay to push more
           data after the first error, the method will just keep returning
           errors": every error push() returns is also recorded in
@@ -158,6 +162,7 @@ def run(ctx):
     rule_sticky(ctx, F)
     rule_bits(ctx, F)
     rule_tailcall(ctx, F)
+    rule_symok(ctx, F)
 
 
 # ---------------------------------------------------------------------------
@@ -697,3 +702,32 @@ def rule_tailcall(ctx, F):
                "dropped silently" % p.split("::")[-1], b.where())
     ctx.ob(R, "convert_entry / convert_token", "implementations found", k >= 2, "only %d scanner conversion function(s) call process_tail" % k,
            nontrivial=False)
+
+
+# ---------------------------------------------------------------------------
+# C18.symok: Symbols stops silently at a bad escape; its users must ask
+# ---------------------------------------------------------------------------
+
+def rule_symok(ctx, F):
+    from rulelib import must_pass
+    R = "C18.symok"
+    ctx.floor(R, 8)
+    n = 0
+    for p, b in sorted(F.bodies.items()):
+        if "::test" in p or p.startswith("new::") or p.startswith("<new::"):
+            continue
+        news = [(bb, tt) for bb, tt in b.calls() if re.search(r"base::scan::Symbols::<.*>::new$", tt["fn"] or "")]
+        if not news:
+            continue
+        oks = [bb for bb, tt in b.calls() if re.search(r"base::scan::Symbols::<.*>::ok$", tt["fn"] or "")]
+        good = [r[0] for r in return_assignments(b) if r[2] == "Ok" or (str(r[2]).startswith("call:") and "from_residual" not in str(r[2]))]
+        if not good:
+            good = [rb for rb in b.return_blocks()]
+        for bb, tt in news:
+            n += 1
+            ok = bool(oks) and all(must_pass(b, bb, [g], oks)[0] for g in good if g in b.reach_from(bb))
+            ctx.ob(R, b, "Symbols#%d is asked ok() before a successful return" % n, ok,
+                   "%s walks a Symbols iterator and returns successfully without asking it ok(): the iterator ends at a malformed "
+                   "escape sequence, so `Zm9v\\9YmFy` yields the data in front of the bad escape (`foo`) and drops the rest -- the "
+                   "zone-file scanner rejects the same text" % p.split("::")[-1], b.where(bb))
+    ctx.call_sites += n
